@@ -77,6 +77,9 @@ func (w *World) skipSites(pkgPrefixes ...string) []skipSite {
 						return true
 					}
 					deciding := sk.Deciding
+					if vacuousSkip(info, loop, s, deciding) {
+						return true
+					}
 					over := exprString(loop.X)
 					if t := info.TypeOf(loop.X); t != nil {
 						over = short(types.TypeString(t, nil))
@@ -358,4 +361,89 @@ func (w *World) restatesTabled(table map[string]string, host string, parts []str
 		}
 	}
 	return true
+}
+
+// vacuousSkip: `if len(xs) == 0 { continue }` as a direct statement of the loop body, where
+// everything after it in the body only happens per element of xs (ranges over xs, and
+// definitions of values that only those ranges use): for an empty xs nothing would have
+// happened anyway - no element's contribution is lost.
+func vacuousSkip(info *types.Info, loop *ast.RangeStmt, is *ast.IfStmt, cond ast.Expr) bool {
+	be, ok := ast.Unparen(cond).(*ast.BinaryExpr)
+	if !ok || is.Else != nil || is.Init != nil {
+		return false
+	}
+	var lenArg ast.Expr
+	isLen := func(e ast.Expr) ast.Expr {
+		if c, ok := ast.Unparen(e).(*ast.CallExpr); ok && len(c.Args) == 1 {
+			if id, ok := c.Fun.(*ast.Ident); ok && id.Name == "len" {
+				return c.Args[0]
+			}
+		}
+		return nil
+	}
+	isInt := func(e ast.Expr, v string) bool {
+		bl, ok := ast.Unparen(e).(*ast.BasicLit)
+		return ok && bl.Value == v
+	}
+	switch {
+	case be.Op == token.EQL && isLen(be.X) != nil && isInt(be.Y, "0"):
+		lenArg = isLen(be.X)
+	case be.Op == token.EQL && isLen(be.Y) != nil && isInt(be.X, "0"):
+		lenArg = isLen(be.Y)
+	case be.Op == token.LSS && isLen(be.X) != nil && isInt(be.Y, "1"):
+		lenArg = isLen(be.X)
+	default:
+		return false
+	}
+	xs := exprString(lenArg)
+	idx := -1
+	for i, st := range loop.Body.List {
+		if st == ast.Stmt(is) {
+			idx = i
+		}
+	}
+	if idx < 0 {
+		return false
+	}
+	defined := map[types.Object]bool{}
+	var ranges []*ast.RangeStmt
+	for _, st := range loop.Body.List[idx+1:] {
+		switch y := st.(type) {
+		case *ast.RangeStmt:
+			if exprString(y.X) != xs {
+				return false
+			}
+			ranges = append(ranges, y)
+		case *ast.AssignStmt:
+			if y.Tok != token.DEFINE {
+				return false
+			}
+			for _, l := range y.Lhs {
+				if id, ok := l.(*ast.Ident); ok {
+					if o := info.Defs[id]; o != nil {
+						defined[o] = true
+					}
+				}
+			}
+		default:
+			return false
+		}
+	}
+	if len(ranges) == 0 {
+		return false
+	}
+	// the defined values are used inside those ranges only
+	okUse := true
+	for _, st := range loop.Body.List[idx+1:] {
+		if _, isRange := st.(*ast.RangeStmt); isRange {
+			continue
+		}
+		ast.Inspect(st, func(n ast.Node) bool {
+			if id, ok := n.(*ast.Ident); ok && defined[info.Uses[id]] {
+				okUse = false
+			}
+			return true
+		})
+	}
+	return okUse
 }
